@@ -457,6 +457,48 @@ def extras_task(task, ctx: Ctx):
                     if len(mods) != 1:
                         ctx.violation("modified-once", f"C16/long/{cls.__name__}/{op}/modified", case, f"{op}: modified reported {len(mods)} times")
                     ctx.distinct("nontrivial", ("long", cls.__name__, n, f, op))
+    elif kind == "ties":
+        # items ordered by a rank only (equality stays identity): every rank vector of <= 4 items, every focus, plain / reversed / keyed sort
+        class Row:
+            def __init__(self, i, rank):
+                self.i, self.rank = i, rank
+
+            def __lt__(self, other):
+                return self.rank < other.rank
+
+            def __repr__(self):
+                return f"r{self.i}/{self.rank}"
+
+        sorts = {"plain": {}, "reverse": {"reverse": True}, "key": {"key": lambda r: -r.rank}}
+        for cls in (MonitoredFocusList, urwid.SimpleFocusListWalker):
+            for n in (2, 3, 4):
+                for ranks in itertools.product(range(3), repeat=n):
+                    for f in range(n):
+                        for how, kw in sorts.items():
+                            ctx.count("evaluations")
+                            items = [Row(i, r) for i, r in enumerate(ranks)]
+                            ref = list(items)
+                            ref.sort(**kw)
+                            ml = cls(items)
+                            ml.focus = f
+                            fch = []
+                            ml.set_focus_changed_callback(fch.append)
+                            case = {"extras": kind, "cls": cls.__name__, "ranks": list(ranks), "focus": f, "sort": how}
+                            try:
+                                ml.sort(**kw)
+                            except Exception as e:
+                                ctx.violation("same-errors", f"C16/ties/{cls.__name__}/{how}/{exc_site(e)}", case, repr(e))
+                                continue
+                            if [id(x) for x in ml] != [id(x) for x in ref]:
+                                ctx.violation("same-contents", f"C16/ties/{cls.__name__}/{how}/contents", case, f"{list(ml)} != {ref}")
+                                continue
+                            want_f = [id(x) for x in ref].index(id(items[f]))
+                            if ml.focus != want_f:
+                                ctx.violation("focus-follows-item", f"C16/ties/{cls.__name__}/{how}/focus", case, f"ranks {ranks}, focus on {items[f]}: after sort() the focus is {ml.focus} ({ml[ml.focus]}), its item is at {want_f}")
+                            elif fch != ([want_f] if want_f != f else []):
+                                ctx.violation("focus-callback", f"C16/ties/{cls.__name__}/{how}/focus-callback", case, f"focus {f} -> {want_f}: focus-changed callback calls {fch}")
+                            if want_f != f:
+                                ctx.distinct("nontrivial", ("ties", cls.__name__, ranks, f, how))
     else:
         muts = {
             "append": lambda l, x: l.append(x),
@@ -505,7 +547,7 @@ def run(tier, R):
     cap = 4 if tier == "quick" else 6
     spec = Spec(cap)
     res = R.bfs(spec, depth=64, chunk=0)
-    R.run_tasks(extras_task, [("long",), ("reentrant",)], recheck=0.0)
+    R.run_tasks(extras_task, [("long",), ("reentrant",), ("ties",)], recheck=0.0)
     cov = {
         "states": res["states"],
         "transitions": res["transitions"],
@@ -516,7 +558,7 @@ def run(tier, R):
         f"{cap}; every op of the alphabet (index/slice get-set-del with start,stop in None|-(n+1)..n+1, step in "
         "None,1,2,3,-1,-2, replacement lengths 0..2, insert/append/extend/pop/remove/reverse/sort (plain, reversed, with a key, with a key function that raises)/+=/*=/clear, "
         "focus assignment valid+invalid, SimpleFocusListWalker.set_focus) applied in every state; plus lists of 300 / 1200 items with a focus index above 256 "
-        "(in-place operations before, at and after the focus) and pairs of lists whose modified listeners change the other list with every pair of mutators; non-trivial = distinct (state, op) pairs that "
+        "(in-place operations before, at and after the focus), every rank vector over 3 ranks of 2..4 items ordered by rank only (ties between different objects) x every focus x plain/reversed/keyed sort, and pairs of lists whose modified listeners change the other list with every pair of mutators; non-trivial = distinct (state, op) pairs that "
         "changed the contents",
         "exhaustive": bool(res["closed"]),
         "bfs_levels": res["levels"],
